@@ -139,6 +139,49 @@ def scenario_projects() -> List[Dict[str, Any]]:
     add("rules-in-config-file", [U("dr", dupsrc)], [], cfg_privacy=["PUBLIC:dr._Secret", "HIDDEN:dr._Secret", "HIDDEN:dr.Api"])
     add("config-replaced-by-command-line", [U("dr", dupsrc)], ["PRIVATE:dr.Api"], cfg_privacy=["HIDDEN:dr.Api", "HIDDEN:dr.Old"])
     add("member-of-hidden-container", [U("dr", dupsrc)], ["PUBLIC:dr._Secret.secret_method", "HIDDEN:dr._Secret"])
+    # sectioned docstrings (module and class; reStructuredText and epytext) x --sidebar-expand-depth 1..4: the sidebar
+    # builds a table of contents for nested items too, the titles' back-references must lead to an entry on the page
+    rst_mod = ('"""\nModule with sections.\n\nUsage\n=====\n\nUse it.\n\nDetails\n=======\n\nMore.\n"""\n'
+               "__docformat__ = 'restructuredtext'\n"
+               'class K:\n    """\n    Class doc.\n\n    Title\n    =====\n\n    text\n\n    Sub\n    ---\n\n    t\n    """\n'
+               '    def m(self):\n        """m"""\n'
+               'def f():\n    """f"""\n')
+    rst_other = '"""\nOther.\n\nIntro\n=====\n\nx\n"""\n' "__docformat__ = 'restructuredtext'\n" 'class Z:\n    """\n    Z.\n\n    Zed\n    ===\n\n    z\n    """\n'
+    epy_mod = ('"""\nEpytext module.\n\nUsage\n=====\n\nUse it.\n"""\n'
+               'class E:\n    """\n    Class doc.\n\n    Title\n    =====\n\n    text\n    """\n')
+    for depth in (1, 2, 3, 4):
+        add("sectioned-docstrings-depth%d" % depth,
+            [U("sd", "'''pkg'''\n", True), U("sd.secs", rst_mod), U("sd.other", rst_other), U("sd.epy", epy_mod)], [],
+            opts={"expand": depth, "toc": 6})
+    add("sectioned-docstrings-two-roots", [U("secs", rst_mod), U("other", rst_other)], [], opts={"expand": 3})
+    # a re-exported object whose default value / decorator argument / constant value names a variable of the module
+    # it was DEFINED in: the link is made by the object's own linker, created while that module was visited
+    impl = ("DEFAULT = 1\n'''d'''\nOTHER = 2\n'''o'''\n"
+            "def f(x=DEFAULT):\n    '''f'''\n"
+            "def deco(a):\n    return lambda fn: fn\n"
+            "@deco(OTHER)\ndef g(y: int = 0):\n    '''g'''\n"
+            "X = DEFAULT + 1\n'''x'''\n"
+            "class Base:\n    '''b'''\n"
+            "class Moved(Base):\n    '''moved'''\n    def meth(self, z=DEFAULT):\n        '''mm'''\n    limit = OTHER\n    '''l'''\n")
+    add("reexported-default-value", [U("rd", "from ._impl import f, DEFAULT\n__all__ = ['f']\n", True), U("rd._impl", impl)], [])
+    add("reexported-default-value-with-constant", [U("rd", "from ._impl import f, DEFAULT\n__all__ = ['f', 'DEFAULT']\n", True),
+                                                    U("rd._impl", impl)], [])
+    add("reexported-decorator-constant-class", [U("rd", "from ._impl import g, X, Moved\n__all__ = ['g', 'X', 'Moved']\n", True),
+                                                U("rd._impl", impl)], ["PRIVATE:rd._impl"])
+    # a root module named like a summary page: which of the two writers wins?
+    cls_src = "'''m'''\nclass C:\n    '''c'''\n    def m(self):\n        '''mm'''\n"
+    for nm in ("classIndex", "nameIndex", "moduleIndex", "undoccedSummary", "index"):
+        add("root-named-%s" % nm, [U(nm, cls_src)], [], oracle_only=True)
+    add("roots-named-classIndex-and-other", [U("classIndex", cls_src), U("other", "'''o'''\nfrom classIndex import C\nclass D(C):\n    '''d'''\n")],
+        [], oracle_only=True)
+    # the only root is hidden: nothing is documented, the summary pages are still written (and link to index.html)
+    add("hidden-single-root", [U("solo", "'''s'''\nclass A:\n    '''a'''\n", True), U("solo.m", "x = 1\n")], ["HIDDEN:solo"])
+    # a module named __main__ is PRIVATE whatever the rules say (Module.privacyClass): a rule that tries to hide it
+    main_pkg = [U("tool", "'''tool, see L{tool.__main__.run}'''\n", True),
+                U("tool.__main__", "'''entry point'''\ndef run(argv):\n    '''run it'''\nclass Cmd:\n    '''c'''\n"),
+                U("tool.lib", "from tool.__main__ import Cmd\nclass Sub(Cmd):\n    '''see L{tool.__main__}'''\n")]
+    add("dunder-main-hidden-by-exact-rule", main_pkg, ["HIDDEN:tool.__main__"])
+    add("dunder-main-hidden-by-pattern", main_pkg, ["PUBLIC:tool.*", "HIDDEN:**.__main__"])
     # (a project whose only root is hidden has no visible object at all: lunr then divides by zero and the run aborts
     #  before anything is written - nothing to crawl; counted as `run-crash` when a random rule list does it)
     add("hidden-one-of-two-roots", [U("r1", "'''one see L{r2.B}'''\nclass A:\n    '''a'''\n"), U("r2", "'''two'''\nfrom r1 import A\nclass B(A):\n    '''see L{r1}'''\n")],
@@ -197,7 +240,22 @@ def random_project(rng) -> List[Unit]:
             return m.group(0)
         src = XREF_HOOK.sub(plant, u.source)
         src = DOC_HOOK.sub(plant2, src)
+        # a sectioned docstring (epytext and reStructuredText share the underlined-title syntax): sidebar tables of
+        # contents, heading back-references
+        if rng.random() < 0.3:
+            sect = "\n\nUsage\n=====\n\nuse it\n\nDetails\n-------\n\nmore\n"
+            src = re.sub(r'^("""module [^\n]*?)"""', lambda m: m.group(1) + sect + '"""', src, count=1, flags=re.M)
+            src = re.sub(r'^(    """doc of [^\n]*)\n    """', lambda m: m.group(1) + "\n\n    Notes\n    =====\n\n    n\n    \"\"\"", src, flags=re.M)
+        # a default value that names a variable of the module (the link is made by the function's own linker)
+        tops = re.findall(r"^([A-Za-z_][A-Za-z_0-9]*) = 1$", src, flags=re.M)
+        if tops and rng.random() < 0.5:
+            src = src.replace("(a, b=1):", "(a, b=%s):" % rng.choice(tops))
         out.append(Unit(u.qname, u.is_package, src, u.parent))
+    # sometimes a package gets a __main__ module (PRIVATE whatever the rules say; see random_privacy)
+    pkgs = [u.qname for u in out if u.is_package]
+    if pkgs and rng.random() < 0.15:
+        pk = rng.choice(pkgs)
+        out.append(Unit(pk + ".__main__", False, "\'\'\'entry point see L{%s}\'\'\'\ndef main(argv):\n    \'\'\'run\'\'\'\n" % pk, pk))
     return out
 
 
@@ -250,6 +308,9 @@ def random_privacy(rng, units: Sequence[Unit]) -> List[str]:
         else:
             pat = pattern_for(rng.choice(nonroot))
         rules.append("%s:%s" % (level, pat))
+    mains = [n for n in names if n.endswith(".__main__")]
+    if mains and rng.random() < 0.7:
+        rules.append(rng.choice(["HIDDEN:" + mains[0], "HIDDEN:**.__main__", "PUBLIC:" + mains[0]]))
     shape = rng.choice(["plain", "plain", "dup", "dup", "dup3", "exact-pattern", "pattern-exact", "inside-hidden"])
     extra: List[str] = []
     if shape in ("dup", "dup3"):
@@ -321,8 +382,10 @@ def real_package_cases(rng) -> List[Dict[str, Any]]:
 def make_cases(rng, n_random: int, rule_lists: int = 1, scenarios: bool = True) -> List[Dict[str, Any]]:
     cases: List[Dict[str, Any]] = []
     for sc in (scenario_projects() if scenarios else []):
+        opts = {"theme": rng.choice(THEMES), "expand": rng.choice([1, 2, 3]), "toc": 6, "nosidebar": False}
+        opts.update(sc.get("opts", {}))
         cases.append({"name": sc["name"], "units": sc["units"], "privacy": sc["privacy"], "cfg_privacy": sc.get("cfg_privacy", []),
-                      "opts": {"theme": rng.choice(THEMES), "expand": rng.choice([1, 2, 3]), "toc": 6, "nosidebar": False}})
+                      "opts": opts, "oracle_only": bool(sc.get("oracle_only"))})
         # the same project under the default rules (no hidden object): baseline for the scenario
         if sc["privacy"] and rng.random() < 0.5:
             cases.append({"name": sc["name"] + "/default", "units": sc["units"], "privacy": [], "opts": random_options(rng)})
@@ -345,6 +408,8 @@ def case_payload(case: Dict[str, Any]) -> Dict[str, Any]:
     p = {"name": case["name"], "units": _units_payload(case["units"]), "privacy": case["privacy"], "opts": case["opts"]}
     if case.get("cfg_privacy"):
         p["cfg_privacy"] = list(case["cfg_privacy"])
+    if case.get("oracle_only"):
+        p["oracle_only"] = True
     if case.get("path"):
         p["path"] = case["path"]
         p["docformat"] = case.get("docformat", "epytext")
@@ -359,7 +424,7 @@ def case_from_payload(p: Dict[str, Any]) -> Dict[str, Any]:
         units.append(Unit(q, pkg, src, q.rpartition(".")[0] or None))
     units.sort(key=lambda u: (u.qname.count("."), u.qname))
     c = {"name": p.get("name", "replay"), "units": units, "privacy": p.get("privacy", []), "opts": p.get("opts", {}),
-         "cfg_privacy": p.get("cfg_privacy", [])}
+         "cfg_privacy": p.get("cfg_privacy", []), "oracle_only": bool(p.get("oracle_only"))}
     if p.get("path"):
         c["path"] = p["path"]
         c["docformat"] = p.get("docformat", "epytext")
@@ -526,9 +591,10 @@ def extract_facts(system) -> Dict[str, Any]:
         return None if isinstance(t, str) else oid(t)
 
     def link_to(ctx, name) -> Optional[int]:
-        """_EpydocLinker.link_to: expandName in the context object, then the registry"""
+        """_EpydocLinker.link_to: `self.obj.resolveName(identifier)` (expandName, the registry, then find_object for a
+        name that designates the original location of a re-exported object)"""
         try:
-            return oid(system.objForFullName(ctx.expandName(name)))
+            return oid(ctx.resolveName(name))
         except Exception:
             return None
 
@@ -579,8 +645,10 @@ def extract_facts(system) -> Dict[str, Any]:
         # the page object remembered by the linker that renders this docstring (stale after a re-export)
         rec["docctx"] = oid(getattr(source.docstring_linker, "_page_object", None)) if source is not None else None
         rec["module"] = i if isinstance(o, model.Module) else oid(o.parentMod)
-        # annotation / signature / decorator / value links (all through link_to)
+        # annotation links (`_AnnotationLinker`, switch_context(obj)) and links made through the object's own
+        # docstring_linker without a switch: constant values, decorators, default values of parameters
         ann: List[int] = []
+        val: List[int] = []
         if isinstance(o, model.Attribute):
             for nm in _expr_names(unstring(o.annotation) if o.annotation is not None else None):
                 t = ann_link_to(o, nm)
@@ -590,13 +658,13 @@ def extract_facts(system) -> Dict[str, Any]:
                 for nm in _expr_names(o.value):
                     t = link_to(o, nm)
                     if t is not None:
-                        ann.append(t)
+                        val.append(t)
         if isinstance(o, (model.Function, model.Attribute)):
             for dec in (o.decorators or ()):
                 for nm in _expr_names(dec):
                     t = link_to(o, nm)
                     if t is not None:
-                        ann.append(t)
+                        val.append(t)
         if isinstance(o, model.Function):
             for a in o.annotations.values():
                 for nm in _expr_names(unstring(a) if a is not None else None):
@@ -615,10 +683,12 @@ def extract_facts(system) -> Dict[str, Any]:
                             for nm in _expr_names(ast.parse(src, mode="eval").body):
                                 t = link_to(o, nm)
                                 if t is not None:
-                                    ann.append(t)
+                                    val.append(t)
                         except Exception:
                             pass
         rec["annrefs"] = ann
+        rec["valrefs"] = val
+        rec["ownctx"] = oid(getattr(o.docstring_linker, "_page_object", None))
         if isinstance(o, model.Class):
             rec["bases"] = [oid(b) for b in o.baseobjects]
             rec["basenames"] = list(o.bases)
@@ -1007,7 +1077,8 @@ def request_line(facts: Dict[str, Any]) -> str:
             _nl(o["xrefs"]), _nl(o["annrefs"]), _ol(o.get("bases", [])),
             ",".join(enc(b) for b in o.get("basenames", [])) or "-", _nl(o.get("mro", [])), _nl(o.get("subclasses", [])),
             _ol(o.get("sigrefs", [])), _nl(o.get("ctors", [])),
-            "-" if o.get("docctx") is None else str(o["docctx"]), "-" if o.get("module") is None else str(o["module"])]))
+            "-" if o.get("docctx") is None else str(o["docctx"]), "-" if o.get("module") is None else str(o["module"]),
+            _nl(o.get("valrefs", [])), "-" if o.get("ownctx") is None else str(o["ownctx"])]))
     return "output run %d %d %s %s %s" % (facts["depth"], 1 if facts["nosidebar"] else 0, _nl(facts["roots"]),
                                           _nl(facts["all"]), " ".join(toks))
 
@@ -1029,7 +1100,7 @@ def _canon(items) -> str:
 
 
 # model sections that are compared as a union with one crawl section
-UNIONS = {"xref": ("docxref", "annxref"), "modindex": ("modindex-root", "modindex")}
+UNIONS = {"xref": ("docxref", "annxref", "valxref"), "modindex": ("modindex-root", "modindex")}
 MODEL_ONLY = ("dead", "hiddenlinks", "unmarked")
 # for real packages the harness cannot predict what docstrings, fields and expressions link to: these sections
 # are left to the direct oracles there
@@ -1360,6 +1431,10 @@ def crawl_and_compare(ctx, n_random: int, rule_lists: int, extra_cases: Sequence
         ms["dead-set"] = _canon(_model_dead_set(secs.get("dead", "")))
         im["dead-set"] = _canon(r["crawl"]["pages"][fn]["page"] + ">" + canon_href(href)
                                 for fn, prod, href, label, why in dead_links(r) if prod != "inhierarchy")
+        if r["case"].get("oracle_only"):
+            # outside the model's assumptions (a module named like a summary page): decided by the direct oracle only
+            ctx.count("oracle-only-case")
+            continue
         for sec in sorted(set(ms) | set(im)):
             if r["case"].get("path") and sec in TEXT_DEPENDENT:
                 continue
